@@ -598,11 +598,12 @@ func (m *clientHelloMsg) unmarshal(data []byte) bool {
 			}
 		case extensionExtendedRandom:
 			var extendedRandom cryptobyte.String
-			if !extData.ReadUint16LengthPrefixed(&extendedRandom) || extendedRandom.Empty() {
+			if !extData.ReadUint16LengthPrefixed(&extendedRandom) ||
+				!readUint16LengthPrefixed(&extendedRandom, &m.extendedRandom) ||
+				!extendedRandom.Empty() {
 				return false
 			}
 			m.extendedRandomEnabled = true
-			m.extendedRandom = extendedRandom
 		case extensionExtendedMasterSecret:
 			m.extendedMasterSecret = true
 		default:
